@@ -272,7 +272,7 @@ def view(case):
 
 def campaigns(tier: str) -> List[Campaign]:
     return [Campaign("call_graph", c13_case(), check, quick=320, thorough=14400, quick_shards=8,
-                     required_classes={"depth>=3": 0.15, "kernels_from_several_children": 0.3, "main_and_autograd_thread": 0.12,
+                     required_classes={"HTA_DISABLE_CG_DEPTH": 0.06, "depth>=3": 0.15, "kernels_from_several_children": 0.3, "main_and_autograd_thread": 0.12,
                                        "reparented_operator": 0.06, "has_backward_annotation": 0.05, "multi_thread": 0.3,
                                        "only_some_ranks_have_a_backward_annotation": 0.05},
                      sample_view=view)]
